@@ -5,9 +5,10 @@ value is not visited again; otherwise the node is rebuilt from its substituted c
 a quantifier, every key that mentions (free) a variable bound by that quantifier is inactive.
 Plain recursion on a tree, no sharing, no memo.
 
-compatible(k, v): may the value replace the key?  True / False / None (None = not decided by the
-declared types alone: a compound numeric key or value whose interval comes from type inference,
-C15's subject).
+compatible(k, v): may the value replace the key?  True / False / None.  False = different kinds
+(bool / numeric / user type, real into int, user type that is not a subtype).  None = not decided
+by the statement: numeric kinds fit but the intervals are disjoint, or an interval comes from
+type inference of a compound term (C15's subject).
 """
 from __future__ import annotations
 
@@ -72,8 +73,10 @@ def compatible(k, v):
         return None
     _, klo, khi = ik
     _, vlo, vhi = iv
+    # same numeric kind, disjoint DECLARED intervals (i:int[0,2] := 7): the library's notion of
+    # compatibility rejects it, the property statement does not say -> not decided here
     if vhi is not None and klo is not None and vhi < klo:
-        return False
+        return None
     if vlo is not None and khi is not None and vlo > khi:
-        return False
+        return None
     return True
